@@ -351,7 +351,8 @@ class Parser:
             if self.peek().kind == "op" and self.peek().text in ASSIGN_OPS:
                 op = self.next().text
                 rhs = self.parse_expr()
-                self.expect(";")
+                if not self.at("}"):
+                    self.expect(";")
                 stmts.append(Node("assign", op=op, target=e, e=rhs))
                 continue
             if self.accept(";"):
@@ -742,6 +743,8 @@ class Emitter:
             return self.typeof(e.e, env)
         if k == "path":
             nm = e.segs[-1]
+            if len(e.segs) == 2 and e.segs[0] in INT_TYPES and nm == "MAX":
+                return e.segs[0]
             if len(e.segs) == 1 and nm in env:
                 return env[nm][1]
             if nm in self.consts:
@@ -878,6 +881,8 @@ class Emitter:
             return self.expr(e.e, env, expect)
         if k == "path":
             nm = e.segs[-1]
+            if len(e.segs) == 2 and e.segs[0] in INT_TYPES and nm == "MAX":
+                return Val(str(2 ** WIDTH[e.segs[0]] - 1), True, e.segs[0])
             if len(e.segs) == 1 and nm in env:
                 return Val(env[nm][0], True, env[nm][1])
             if nm in self.consts:
@@ -963,9 +968,14 @@ class Emitter:
         op = e.op
         if op in ("&&", "||"):
             l, r = self.expr(e.l, env), self.expr(e.r, env)
-            if not (l.pure and r.pure and l.ty == "bool" and r.ty == "bool"):
-                raise ExtractError(f"`{op}` with effectful or non-boolean operands")
-            return Val(f"({l.code} {op} {r.code})", True, "bool")
+            if not (l.ty == "bool" and r.ty == "bool"):
+                raise ExtractError(f"`{op}` with non-boolean operands")
+            if r.pure:
+                return self.seq([l], lambda a: Val(f"({a[0]} {op} {r.code})", True, "bool"))
+            # short circuit: the right operand is evaluated only when needed
+            if op == "&&":
+                return self.seq([l], lambda a: Val(f"(if {a[0]} then {r.code} else some false)", False, "bool"))
+            return self.seq([l], lambda a: Val(f"(if {a[0]} then some true else {r.code})", False, "bool"))
         lt, rt = self.typeof(e.l, env), self.typeof(e.r, env)
         if lt == "Uint":
             # bit length abstraction: bits(n >> k) = bits(n) - k (truncated), exact
@@ -1016,7 +1026,7 @@ class Emitter:
         if nm in ("min", "max") and len(e.args) == 1:
             ty = self.unify(self.typeof(e.e, env), self.typeof(e.args[0], env), nm) or expect or "i32"
             l, r = self.expr(e.e, env, ty), self.expr(e.args[0], env, ty)
-            return self.seq([l, r], lambda a: Val(f"(Nat.{nm} {a[0]} {a[1]})", True, ty))
+            return self.seq([l, r], lambda a: Val(f"({nm} {a[0]} {a[1]})", True, ty))
         if nm == "len" and not e.args:
             v = self.expr(e.e, env)
             if not (isinstance(v.ty, tuple) and v.ty[0] == "slice"):
@@ -1064,7 +1074,7 @@ class Emitter:
         if nm in ("min", "max") and len(e.args) == 2:
             ty = self.unify(self.typeof(e.args[0], env), self.typeof(e.args[1], env), nm) or expect or "i32"
             l, r = self.expr(e.args[0], env, ty), self.expr(e.args[1], env, ty)
-            return self.seq([l, r], lambda a: Val(f"(Nat.{nm} {a[0]} {a[1]})", True, ty))
+            return self.seq([l, r], lambda a: Val(f"({nm} {a[0]} {a[1]})", True, ty))
         if nm in self.funcs:
             lname, ptys, rty = self.funcs[nm]
             if len(ptys) != len(e.args):
